@@ -1,8 +1,10 @@
 #!/bin/bash
-# usage: try_seed.sh <seed dir name> [Cxx] : apply to /repo, run ./check, restore /repo
+# usage: try_seed.sh <seed dir name> [Cxx] : apply to /repo, run ./check, restore /repo (evidence file preserved)
 S=/verif/seeded/$1
 P=${2:-${1%%-*}}
+cp /verif/evidence/$P.json /tmp/evidence_$P.bak 2>/dev/null
 cd /repo && git apply $S/patch.diff || exit 9
 cd /verif && ./check $P --tier quick > /tmp/try_$1.log 2>&1; rc=$?
 cd /repo && git checkout -- . 
+cp /tmp/evidence_$P.bak /verif/evidence/$P.json 2>/dev/null
 echo "$1 -> exit $rc"; grep -E "^VIOLATION|^UNDECIDED|^KNOWN" /tmp/try_$1.log | head -5; tail -1 /tmp/try_$1.log
